@@ -3,7 +3,8 @@ PROPS["C12"] = P(
     "table-driven sweep: (structure instance: empty / minimal / ordinary / degenerate) x (safe public method) x (argument class: 0, 1, len-1, len, len+1, 2len, cnt-1, cnt, cnt+1, u-1, u, u+1, 2^16, 2^32, 2^63, MAX-1, MAX, MAX/64, random) "
     "for BitVec/AtomicBitVec, BitFieldVec/AtomicBitFieldVec (six word types, widths 0,1,7,BITS-1,BITS), all rank/select structures and nestings, Elias-Fano, rear-coded lists, VFunc/VFilter (never-inserted keys, extreme signatures). "
     "One case per triple because a violation kills the process; the oracle is the process outcome (return or unwinding panic = held; UB-check abort, ASan/Miri/valgrind report or fatal signal with a sux frame = violated). "
-    "distinct_nontrivial = distinct (structure, instance, method, argument class) tuples executed; notes.outcomes counts answered vs panicked",
+    "distinct_nontrivial = distinct (structure, instance, method, argument class) tuples executed; notes.outcomes counts answered vs panicked"
+    ' Added strata: sizes whose product with the bit width overflows usize (new / new_unaligned / resize / AtomicBitFieldVec::new), bit widths larger than the word, unwinding faults injected through caller-supplied iterators and closures followed by safe probes, vectors from with_capacity before their first push, constructor parameters of the selection structures over the whole usize domain, Elias-Fano instances whose upper-bits array ends on a word boundary, GF(2) equations and systems (add without a common variable, variables beyond the declared number). ',
     dict(builds=["DBG", "UBC", "ASAN"], shards={"DBG": 5, "UBC": 5, "ASAN": 6}),
     dict(builds=["DBG", "UBC", "ASAN", "MIRI", "VG"], shards={"DBG": 4, "UBC": 4, "ASAN": 4, "MIRI": 12, "VG": 4}),
     hang="violation", hang_limit=120,
